@@ -318,14 +318,14 @@ def crash (site : String) (s : St) : St := { emit (.crash site) s with crashed :
 /-- `self._start_d.errback(failure)`.  When `_start_d` is `None` or has already been called the Python
     statement raises (AttributeError / AlreadyCalledError); everywhere it occurs that exception is
     swallowed by the enclosing Deferred (or logged by the reactor) and aborts the rest of the handler.
-    `raised` tells the caller; nothing is observable. -/
-def startErrback' (f : Fail) (s : St) : St × Bool :=
+    Nothing is observable. -/
+def startErrback (f : Fail) (s : St) : St :=
   match s.startD with
-  | .pending => ({ emit (.startFired (.err f)) s with startD := .called }, false)
-  | _ => (s, true)
+  | .pending => { emit (.startFired (.err f)) s with startD := .called }
+  | _ => s
 
-/-- `self._start_d.errback(failure)` as the last statement of a handler. -/
-def startErrback (f : Fail) (s : St) : St := (startErrback' f s).1
+/-- whether `self._start_d.errback(..)` raises in this state -/
+def errbackRaises (s : St) : Bool := s.startD != .pending
 
 /-- `_do_fetch` -/
 def doFetch (cfg : Cfg) (s : St) : St :=
@@ -337,7 +337,8 @@ def doFetch (cfg : Cfg) (s : St) : St :=
     if s.fetchOffset == offsetEarliest || s.fetchOffset == offsetLatest then
       { emit (.offsets s.nextReq s.fetchOffset) s with requestD := .pending s.nextReq .offsets false, nextReq := s.nextReq + 1 }
     else if s.fetchOffset == offsetCommitted then
-      let (s, raised) := if cfg.group then (s, false) else startErrback' .invalidGroup s
+      let raised := !cfg.group && errbackRaises s
+      let s := if cfg.group then s else startErrback .invalidGroup s
       if raised then s else
       { emit (.offsetFetch s.nextReq) s with requestD := .pending s.nextReq .offsetFetch false, nextReq := s.nextReq + 1 }
     else
@@ -409,24 +410,32 @@ def handleAutoCommitError (f : Fail) (s : St) : St :=
 inductive Who | user | auto | shut
   deriving DecidableEq, Repr
 
-/-- `commit()`: returns the state and what the returned Deferred already holds (`none`: still pending,
-    it is the new head of `_commit_ds`). -/
-def commitCore (cfg : Cfg) (who : Who) (s : St) : St × Option DRes :=
-  if !cfg.group then (s, some (.err .invalidGroup))
-  else if s.lastProcessed.isNone || s.lastProcessed == s.lastCommitted then (s, some (.ok s.lastCommitted))
+/-- `commit()`: what the returned Deferred already holds when `commit()` returns (`none`: still
+    pending, it is the new head of `_commit_ds`). -/
+def commitResult (cfg : Cfg) (who : Who) (s : St) : Option DRes :=
+  if !cfg.group then some (.err .invalidGroup)
+  else if s.lastProcessed.isNone || s.lastProcessed == s.lastCommitted then some (.ok s.lastCommitted)
   else if !s.commitDs.isEmpty then
     match who with
-    | .user => ({ s with commitDs := s.commitDs ++ [.inProg s.nextWaiter], nextWaiter := s.nextWaiter + 1 }, some (.err (.opInProgress s.nextWaiter)))
-    | .shut => ({ s with commitDs := s.commitDs ++ [.shutInProg] }, some (.err (.opInProgress 0)))
-    | .auto => ({ s with commitDs := s.commitDs ++ [.orphan] }, some (.err (.opInProgress 0)))
+    | .user => some (.err (.opInProgress s.nextWaiter))
+    | _ => some (.err (.opInProgress 0))
+  else none
+
+/-- `commit()`: its effect on the consumer. -/
+def commitState (cfg : Cfg) (who : Who) (s : St) : St :=
+  if !cfg.group then s
+  else if s.lastProcessed.isNone || s.lastProcessed == s.lastCommitted then s
+  else if !s.commitDs.isEmpty then
+    match who with
+    | .user => { s with commitDs := s.commitDs ++ [.inProg s.nextWaiter], nextWaiter := s.nextWaiter + 1 }
+    | .shut => { s with commitDs := s.commitDs ++ [.shutInProg] }
+    | .auto => { s with commitDs := s.commitDs ++ [.orphan] }
   else
     let head := match who with
       | .user => Waiter.user s.nextCommit
       | .shut => .shutHead
       | .auto => .autoHead
-    let s := { s with commitDs := [head] }
-    let s := sendCommitRequest cfg none none s
-    (looperReset cfg s, none)
+    looperReset cfg (sendCommitRequest cfg none none { s with commitDs := [head] })
 
 /-- `_auto_commit(by_count)` -/
 def autoCommit (cfg : Cfg) (byCount : Bool) (s : St) : St :=
@@ -438,24 +447,25 @@ def autoCommit (cfg : Cfg) (byCount : Bool) (s : St) : St :=
       | _, _ => true)
     if !due then s
     else if s.commitDs.isEmpty then
-      match commitCore cfg .auto s with
-      | (s, some (.err f)) => handleAutoCommitError f s
-      | (s, _) => s
+      match commitResult cfg .auto s with
+      | some (.err f) => handleAutoCommitError f (commitState cfg .auto s)
+      | _ => commitState cfg .auto s
     else { s with commitDs := s.commitDs ++ [.autoRetry byCount] }
 
 /-- manual `commit()` -/
 def commitUser (cfg : Cfg) (s : St) : St :=
   let c := s.nextCommit
-  match commitCore cfg .user s with
-  | (s, some r) => emit (.commitFired c r) { s with nextCommit := c + 1 }
-  | (s, none) => { s with nextCommit := c + 1 }
+  match commitResult cfg .user s with
+  | some r => emit (.commitFired c r) { commitState cfg .user s with nextCommit := c + 1 }
+  | none => { commitState cfg .user s with nextCommit := c + 1 }
 
-/-- `_handle_processor_error`; the Bool says whether the failure is passed on to `_process_messages`. -/
-def handleProcessorError (f : Fail) (s : St) : St × Bool :=
-  if s.stopping && f.isCancelled then (s, false)
-  else match s.startD with
-    | .pending => (startErrback f s, true)
-    | _ => (s, true)   -- `_start_d` None: skipped; already called: AlreadyCalledError, consumed by the generator
+/-- `_handle_processor_error` (`_start_d` None: skipped; already called: AlreadyCalledError, consumed
+    by the generator) -/
+def handleProcessorError (f : Fail) (s : St) : St :=
+  if s.stopping && f.isCancelled then s else startErrback f s
+
+/-- whether `_handle_processor_error` passes the failure on to `_process_messages` -/
+def procErrPassed (f : Fail) (s : St) : Bool := !(s.stopping && f.isCancelled)
 
 section WithInner
 variable (cfg : Cfg) (inner : Ops)
@@ -466,6 +476,46 @@ def runAct (a : Act) (s : St) : St :=
   | .commit => inner.commit s
   | .shutdown => inner.shutdown s
 
+/-- The processor is called with `blk`: from now on it may re-enter the API. -/
+def procEnter (blk rest' : List Msg) (last : Int) (s : St) : St :=
+  { emit (.proc blk) s with script := s.script.tail, frame := some { rest := rest', last := last } }
+
+/-- The API calls the processor makes. -/
+def procActs (acts : List Act) (s : St) : St :=
+  acts.foldl (fun s a => runAct inner a (emit (.act a) s)) s
+
+/-- The processor call ends with `res` (`maybeDeferred`), the callbacks that do not depend on the
+    outcome of later steps run: `_clear_processor_deferred`, `_update_processed_offset`'s assignment;
+    for a Deferred: it is cancelled at once if the consumer was stopped meanwhile, else the generator
+    suspends on it. -/
+def procLeave (res : PRes) (rest' : List Msg) (last : Int) (s : St) : St :=
+  match res with
+  | .ok => { emit (.procRet .ok) s with frame := none, lastProcessed := some last }
+  | .err k t => { emit (.procRet (.err k t)) s with frame := none }
+  | .defer =>
+    if s.stopping || s.startD == .none then { emit .procCancel (emit (.procRet .defer) s) with frame := none }
+    else { emit (.procRet .defer) s with frame := none, proc := some { rest := rest', last := last, shutWait := false } }
+
+/-- One iteration of the `while` loop of `_process_messages`: hand `blk` to the processor (script
+    entry `e`), then act on how the call ended; `k` is the rest of the loop. -/
+def procBody (k : St → St × Bool) (blk rest' : List Msg) (last : Int) (e : PEntry) (s : St) : St × Bool :=
+  let s := procLeave e.res rest' last (procActs inner e.acts (procEnter blk rest' last s))
+  match e.res with
+  | .ok =>
+    -- _update_processed_offset: _auto_commit(by_count=True)
+    let s := autoCommit cfg true s
+    if s.stopping || s.startD == .none then (s, true) else k s
+  | .err kd t =>
+    let passed := procErrPassed (.ext kd t) s
+    let s := handleProcessorError (.ext kd t) s
+    if s.stopping || s.startD == .none then (s, true)
+    else if passed then (s, false) else k s
+  | .defer =>
+    if s.proc.isSome then (s, true) else (handleProcessorError (.ext .cancelled 0) s, true)
+
+/-- `proc_block_size`: `auto_commit_every_n` if set, else the whole list (`sys.maxsize`). -/
+def blockSize (n : Nat) : Nat := if cfg.autoN != 0 then cfg.autoN else n
+
 /-- The `while` loop of `_process_messages` from the point where it (re-)checks its condition.
     Ends with `proc = some _` (waiting on the processor), or finished (`done = true`: falls through
     to the `_msg_block_d` clean-up), or abandoned after a processor failure (`done = false`). -/
@@ -473,31 +523,12 @@ def procLoop : Nat → List Msg → St → St × Bool
   | 0, _, s => (s, true)
   | fuel + 1, rest, s =>
     if rest.isEmpty || s.shuttingDown || s.stopping then (s, true) else
-    let bs := if cfg.autoN != 0 then cfg.autoN else rest.length
-    let blk := rest.take bs
-    let rest' := rest.drop bs
-    match blk.getLast? with
+    match (rest.take (blockSize cfg rest.length)).getLast? with
     | none => (s, true)
     | some lastMsg =>
-      let e := s.script.head?.getD { acts := [], res := .ok }
-      let s := { emit (.proc blk) s with script := s.script.tail, frame := some { rest := rest', last := lastMsg.off } }
-      let s := e.acts.foldl (fun s a => runAct inner a (emit (.act a) s)) s
-      let s := { emit (.procRet e.res) s with frame := none }
-      match e.res with
-      | .ok =>
-        -- _clear_processor_deferred; _update_processed_offset
-        let s := { s with lastProcessed := some lastMsg.off }
-        let s := autoCommit cfg true s
-        if s.stopping || s.startD == .none then (s, true) else procLoop fuel rest' s
-      | .err k t =>
-        let (s, passed) := handleProcessorError (.ext k t) s
-        if s.stopping || s.startD == .none then (s, true)
-        else if passed then (s, false) else procLoop fuel rest' s
-      | .defer =>
-        if s.stopping || s.startD == .none then
-          let s := emit .procCancel s
-          ((handleProcessorError (.ext .cancelled 0) s).1, true)
-        else ({ s with proc := some { rest := rest', last := lastMsg.off, shutWait := false } }, true)
+      procBody cfg inner (procLoop fuel (rest.drop (blockSize cfg rest.length)))
+        (rest.take (blockSize cfg rest.length)) (rest.drop (blockSize cfg rest.length)) lastMsg.off
+        (s.script.head?.getD { acts := [], res := .ok }) s
 
 /-- `stop()` as called by the shutdown continuations (`if not self._stopping: self.stop()`). -/
 def nestedStop (s : St) : St :=
@@ -524,10 +555,10 @@ def behind (s : St) : Bool := cfg.group && s.lastProcessed.isSome && s.lastProce
 def commitAndStop1 (s : St) : St :=
   if s.stopping then shutdownFinish inner (some (.ext .cancelled 0)) s
   else if !cfg.group then shutdownFinish inner none s
-  else match commitCore cfg .shut s with
-    | (s, some (.ok _)) => shutdownFinish inner none s   -- `commit()` short-circuited: nothing is behind
-    | (s, some (.err f)) => if f.isOpInProgress then s else shutdownFinish inner (some f) s
-    | (s, none) => s
+  else match commitResult cfg .shut s with
+    | some (.ok _) => shutdownFinish inner none (commitState cfg .shut s)   -- `commit()` short-circuited: nothing is behind
+    | some (.err f) => if f.isOpInProgress then commitState cfg .shut s else shutdownFinish inner (some f) (commitState cfg .shut s)
+    | none => commitState cfg .shut s
 
 /-- `_commit_and_stop` -/
 def commitAndStop (s : St) : St := commitAndStop1 cfg inner s
@@ -601,8 +632,8 @@ def fetchBody (viaBlock : Bool) (r : Reply) (s : St) : St :=
     match grow s.bufferSize cfg.bufMax with
     | some b => retryFetch cfg (some 0) (deliverBlock cfg inner msgs { s with bufferSize := b })
     | none =>
-      let (s, raised) := startErrback' .tooSmall s
-      let s := deliverBlock cfg inner msgs s
+      let raised := errbackRaises s
+      let s := deliverBlock cfg inner msgs (startErrback .tooSmall s)
       -- the exception raised by `errback` leaves through the `finally:` and, on the request's own
       -- callback chain, reaches `_handle_fetch_error`
       if raised && !viaBlock then handleFetchError cfg (.ext .other 0) s else s
@@ -631,17 +662,27 @@ def finishFull (s : St) : St :=
     | none => s
   else s
 
+/-- The processor's Deferred fires: the callbacks that precede the generator's own
+    (`_clear_processor_deferred`, `_update_processed_offset`, `_handle_processor_error`). -/
+def procFired (g : Gen) (r : Option Fail) (s : St) : St :=
+  match r with
+  | none => autoCommit cfg true { s with proc := none, lastProcessed := some g.last }
+  | some f => handleProcessorError f { s with proc := none }
+
+/-- … then the generator resumes (unless the failure was passed on to it: it returns, leaving
+    `_msg_block_d` set). -/
+def procResume (g : Gen) (passed : Bool) (s : St) : St :=
+  if passed then s
+  else
+    let res := procLoop cfg inner (g.rest.length + 1) g.rest s
+    if res.1.proc.isSome || !res.2 then res.1 else finishFull cfg inner res.1
+
 /-- The processor's Deferred fires (event) or is cancelled by `stop()`. -/
 def procResult (g : Gen) (r : Option Fail) (s : St) : St :=
-  let s := { s with proc := none }
-  let (s, passed) := match r with
-    | none => (autoCommit cfg true { s with lastProcessed := some g.last }, false)
-    | some f => handleProcessorError f s
-  let s :=
-    if passed then s   -- the generator returns, leaving `_msg_block_d` set
-    else
-      let (s, done) := procLoop cfg inner (g.rest.length + 1) g.rest s
-      if s.proc.isSome || !done then s else finishFull cfg inner s
+  let passed := match r with
+    | none => false
+    | some f => procErrPassed f s
+  let s := procResume cfg inner g passed (procFired cfg g r s)
   if g.shutWait then commitAndStop cfg inner s else s
 
 /-- The `while self._commit_ds:` loop of `stop()`. -/
